@@ -29,7 +29,7 @@ def check(repo, tier="quick"):
         "reversed scan), agreement of coefficient / quantisation-matrix ordering with the decoder's read order, and the lossless "
         "path being unquantised. The wavelet transform's own inversion is decided by C11."
     )
-    res.rule("C04.h", "bug patterns with zero expected instances in this property's modules: swapped same-named arguments, lower-bound guard followed by a decrement of the guarded value, presence of a dictionary entry decided by truthiness")
+    res.rule("C04.h", "bug patterns with zero expected instances in this property's modules: swapped same-named arguments, lower-bound guard followed by a decrement of the guarded value, presence of a dictionary entry decided by truthiness; no state kept between calls in the encoder and transform modules")
     res.rule("C04.a", "encoder stage list = reversed decoder stage list under {offset<->remove_offset, pad_removal<->pad_addition, idwt<->dwt}; component/transform pairing agrees; offset removal is the offset with the opposite sign")
     res.rule("C04.b", "apply_dc_prediction uses dc_prediction's predictors with the opposite sign and scans y and x in reverse; applied exactly for the parse codes the decoder de-predicts")
     res.rule("C04.c", "coefficient, orientation, level, component and slice ordering of the encoder = the decoder's read order; quantisation matrix serialisation order = quant_matrix read order")
@@ -48,6 +48,9 @@ def check(repo, tier="quick"):
     from .. import lints as _lints
 
     _lints.rule(repo, res, "C04.h", ['encoder.pictures', 'pseudocode.picture_encoding'])
+    from .. import globals_state as _gs
+
+    _gs.rule(repo, res, "C04.h", ['encoder.pictures', 'encoder.sequence', 'pseudocode.picture_encoding', 'pseudocode.arrays', 'pseudocode.quantization'], what="the coefficients coded for one picture (a later picture could be answered from an earlier one's)")
     res.floor("C04.h", 3)
     res.floor("C04.g", 2)
     res.floor("C04.e", 30)
